@@ -197,6 +197,8 @@ def get_batches(tier, seed):
         for k, prof in enumerate(sink_profiles):
             futs.append(ex.submit(run_batch, cache, f'sink{k}', seed, plugin_path(rh), scale, prof, sink))
         dirs = [f.result() for f in futs]
+        # the deterministic case first: evaluators that look at a prefix of the batches always see it
+        dirs = dirs[n:] + dirs[:n]
     return dirs, {'repoHash': rh, 'machineryHash': mh, 'cache': cache}
 
 
